@@ -1043,7 +1043,8 @@ func runC04(a *Args) error {
 		emit([]c04Step{st}, tags)
 		cw.Count("directed.same-block")
 	}
-	// (2) operator value zero: 100% slash, then another slash event -> division by zero
+	// (2) regression for the repaired division by zero: 100% slash, then another slash event against the now worthless operator
+	// must return an error (swallowed by the entry point) and change nothing
 	{
 		ctx, _ := base.CacheContext()
 		ids := &c04IDs{m: map[string]int{}}
@@ -1056,7 +1057,7 @@ func runC04(a *Args) error {
 		}
 		s1 := g.doCall(ctx, ids, 1, 10, p, sdkmath.LegacyOneDec(), 1, "", stakingtypes.Infraction_INFRACTION_DOUBLE_SIGN)
 		s2 := g.doCall(ctx.WithBlockHeight(31), ids, 1, 12, p, sdkmath.LegacyNewDecWithPrec(1, 2), 2, "", stakingtypes.Infraction_INFRACTION_DOWNTIME)
-		emit([]c04Step{s1, s2}, []string{"obs-C04-zero-value-panic"})
+		emit([]c04Step{s1, s2}, []string{"regress-C04-zero-value"})
 		cw.Count("directed.zero-value")
 	}
 	// (3) replay of the same slash identifier through every entry point
